@@ -36,11 +36,15 @@ PAIRINGS = {   # name -> (group spec, prefixed member alone, unprefixed member a
     "8.3.0+sc:score_2.0.0+tl:testlib_2.1.0": (("8.3.0", "sc:score_2.0.0", "tl:testlib_2.1.0"), "testlib_2.1.0",
                                               "8.3.0", "tl:"),
     "score_2.0.0+st:8.3.0": (("score_2.0.0", "st:8.3.0"), "8.3.0", "score_2.0.0", "st:"),
+    "8.2.0+TL:testlib_2.0.0": (("8.2.0", "TL:testlib_2.0.0"), "testlib_2.0.0", "8.2.0", "TL:"),   # upper-case prefix
     # members of different schema generations (text rules differ between 8.2.0 and 8.3.0)
     "8.2.0+sc:score_2.0.0": (("8.2.0", "sc:score_2.0.0"), "score_2.0.0", "8.2.0", "sc:"),
     "8.3.0+sc:score_1.1.0": (("8.3.0", "sc:score_1.1.0"), "score_1.1.0", "8.3.0", "sc:"),
 }
-QUICK = ["8.3.0+sc:score_2.0.0", "8.2.0+tl:testlib_3.0.0", "8.2.0+sc:score_2.0.0"]
+QUICK = ["8.3.0+sc:score_2.0.0", "8.2.0+tl:testlib_3.0.0", "8.2.0+TL:testlib_2.0.0"]
+# pairings of different generations: only the text-rule probes are run on them (the known finding above would
+# otherwise resurface under many signatures of the random differential part)
+MIXED = ["8.2.0+sc:score_2.0.0", "8.3.0+sc:score_1.1.0"]
 
 
 def prefix_tree(tree, p):
@@ -89,11 +93,13 @@ def differential_case(draw, names):
             "first_tag": next(iter(gen_hed.flatten(ann["tree"])))["t"]}
 
 
-def codes(text, defs, schema):
+def codes(text, defs, schema, with_warnings=False):
     from hed.models import HedString
     from hed.models.definition_dict import DefinitionDict
     dd = DefinitionDict(defs, schema) if defs else None
     issues = HedString(text, schema, def_dict=dd).validate(allow_placeholders=False)
+    if with_warnings:
+        return Counter((i["code"], i["severity"]) for i in issues)
     return Counter(i["code"] for i in issues if i["severity"] == 1)
 
 
@@ -119,23 +125,35 @@ def oracle_differential(case):
     out.classes = ("side:" + case["side"], "list-order:" + "".join(map(str, case.get("order", [])))) + \
                   (("library-node",) if case["lib_only"] else ()) + \
                   (("mutated",) if case["mutation"] else ())
+    if a == g:
+        # "judged exactly as": the warnings agree too
+        aw = codes(case["text_alone"], case["defs_alone"], alone, True)
+        gw = codes(case["text_group"], case["defs_group"], group, True)
+        if aw != gw:
+            diff = sorted({c for c, _ in set((aw - gw) | (gw - aw))})
+            out.bad(f"group-warnings-differ:{case['side']}:" + "+".join(diff),
+                    f"{case['pairing']}: alone({case['alone']}) {case['text_alone']!r} -> {dict(aw)}; group "
+                    f"{case['text_group']!r} -> {dict(gw)}")
     if a != g:
         diff = sorted(set((a - g) | (g - a)))
         out.bad(f"group-verdict-differs:{case['side']}:" + "+".join(diff),
                 f"{case['pairing']}: alone({case['alone']}) {case['text_alone']!r} -> {dict(a)}; group "
                 f"{case['text_group']!r} -> {dict(g)}; defs={case['defs_group']}")
     # text rules (which characters a value may hold) belong to the member schema, not to the group
-    if case["pairing"] not in _probed:
-        _probed.add(case["pairing"])
-        spec_, pref_alone_, unpref_alone_, p_ = PAIRINGS[case["pairing"]]
+    for pairing_ in ([case["pairing"]] + MIXED):
+        if pairing_ in _probed:
+            continue
+        _probed.add(pairing_)
+        spec_, pref_alone_, unpref_alone_, p_ = PAIRINGS[pairing_]
+        group_ = hedenv.schema(spec_)
         for probe in TEXT_PROBES:
             for member, pp_ in ((unpref_alone_, ""), (pref_alone_, p_)):
                 alone_codes = codes(probe, [], hedenv.schema(member))
-                group_codes = codes(gen_hed_text_prefix(probe, pp_), [], group)
+                group_codes = codes(gen_hed_text_prefix(probe, pp_), [], group_)
                 if alone_codes != group_codes:
                     gens = {_generation(v.split(":")[-1]) for v in spec_}
                     kind = "mixed-generations" if len(gens) > 1 else "same-generation"
-                    out.bad(f"group-verdict-differs:text-rules:{kind}", f"{case['pairing']} (order {case.get('order')}): "
+                    out.bad(f"group-verdict-differs:text-rules:{kind}", f"{pairing_}: "
                             f"{gen_hed_text_prefix(probe, pp_)!r} -> {dict(group_codes)}; {probe!r} against {member} "
                             f"alone -> {dict(alone_codes)}")
     # a prefix that is not loaded, or not alphabetic, is an error
@@ -298,7 +316,7 @@ def gen_hed_text_prefix(text, p):
 
 
 def warmup(tier):
-    names = QUICK if tier == "quick" else list(PAIRINGS)
+    names = (QUICK if tier == "quick" else [n for n in PAIRINGS if n not in MIXED]) + MIXED
     for n in names:
         spec, a, b, p = PAIRINGS[n]
         hedenv.schema(spec)
@@ -313,7 +331,7 @@ def warmup(tier):
 
 def parts(tier):
     q = tier == "quick"
-    names = QUICK if q else list(PAIRINGS)
+    names = QUICK if q else [n for n in PAIRINGS if n not in MIXED]
     libs = ["score_2.0.0", "testlib_3.0.0"] if q else list(hedenv.PARTNERED)
     return [Part("differential", oracle_differential, strategy=differential_case(names), n=1500 if q else 160000),
             Part("vocabulary", oracle_vocab, enumerate_fn=make_vocab_enum(libs), exhaustive=True),
